@@ -40,7 +40,7 @@ Proof.
   destruct H as [H|(o & Ho & Hwo)]; [now left|].
   destruct (N.eq_dec r 0) as [E|E]; [now left|]. right.
   destruct (Ht E o Ho) as (oc' & Ho' & K1 & K2 & K3). exists oc'. split; [exact Ho'|].
-  destruct Hw as [->|[->|[->|->]]]; [reflexivity|congruence|congruence|congruence].
+  destruct Hw as [-> | [-> | [-> | ->]]]; [reflexivity|congruence|congruence|congruence].
 Qed.
 
 Lemma obj_ok_transfer g g' o : obj_ok g o = true ->
